@@ -320,9 +320,22 @@ func supervise(c *Check, tier string, seed int64) int {
 			broken = append(broken, fmt.Sprintf("shard %d produced no result", i))
 			continue
 		}
+		reported := map[string]bool{}
 		for _, r := range append(append([]*Result(nil), st.partials...), st.res) {
 			mergeInto(merged, r)
 			broken = append(broken, r.Internal...)
+			for _, v := range r.Violations {
+				if k, ok := v.Input.(string); ok && v.Sub == "process" {
+					reported[k] = true
+				}
+			}
+		}
+		// a case the worker died or hung in becomes a violation when the restarted worker comes to it again; if the deadline
+		// ended the enumeration before that, the death is still a fact about the code under check
+		for key, kind := range st.skip {
+			if !reported[key] {
+				merged.Violations = append(merged.Violations, Violation{Sub: "process", Signature: kind, What: "the process running this case " + kind, Input: key, Count: 1})
+			}
 		}
 	}
 	if c.Vacuity != nil && len(broken) == 0 {
